@@ -8,6 +8,7 @@ package main
 import (
 	"fmt"
 	"go/ast"
+	"go/token"
 	"go/types"
 	"sort"
 	"strings"
@@ -90,17 +91,7 @@ func (st *c12State) eventCaps() map[string][]string {
 				cc := cl.(*ast.CaseClause)
 				var flags []string
 				for _, s := range cc.Body {
-					ast.Inspect(s, func(m ast.Node) bool {
-						if as, ok := m.(*ast.AssignStmt); ok && len(as.Lhs) == 1 && len(as.Rhs) == 1 {
-							p := canonPath(info, as.Lhs[0])
-							if strings.HasPrefix(p, "Vaxis.caps.") {
-								if tv := info.Types[as.Rhs[0]]; tv.Value != nil && tv.Value.String() == "true" {
-									flags = append(flags, strings.TrimPrefix(p, "Vaxis.caps."))
-								}
-							}
-						}
-						return true
-					})
+					flags = append(flags, st.capFlagsSet(fi, s, 0)...)
 				}
 				for _, e := range cc.List {
 					if t := info.TypeOf(e); t != nil {
@@ -113,6 +104,139 @@ func (st *c12State) eventCaps() map[string][]string {
 	}
 	scan(nw, 0)
 	return out
+}
+
+// capFlagsSet: the capability flags (Vaxis.caps.F) that a statement sets to the constant true: by a direct
+// assignment, or through a call of a local closure or a package function that does so — either on the flag
+// itself or through a pointer parameter that the call binds to &vx.caps.F (`setCap(&vx.caps.rgb)`).
+func (st *c12State) capFlagsSet(fi *FuncInfo, n ast.Node, depth int) []string {
+	info := fi.Pkg.TypesInfo
+	var flags []string
+	isTrue := func(e ast.Expr) bool {
+		tv := info.Types[e]
+		return tv.Value != nil && tv.Value.String() == "true"
+	}
+	ast.Inspect(n, func(m ast.Node) bool {
+		switch t := m.(type) {
+		case *ast.FuncLit:
+			return false // only executed if called: handled at the call
+		case *ast.AssignStmt:
+			if len(t.Lhs) == 1 && len(t.Rhs) == 1 && isTrue(t.Rhs[0]) {
+				if p := canonPath(info, t.Lhs[0]); strings.HasPrefix(p, "Vaxis.caps.") {
+					flags = append(flags, strings.TrimPrefix(p, "Vaxis.caps."))
+				}
+			}
+		case *ast.CallExpr:
+			if depth >= 2 {
+				return true
+			}
+			// the callee: a single-definition local closure, or a function of the package
+			var body *ast.BlockStmt
+			var ftype *ast.FuncType
+			cfi := fi
+			if id, ok := unparen(t.Fun).(*ast.Ident); ok {
+				if obj, isVar := info.ObjectOf(id).(*types.Var); isVar && !c12AssignedElsewhere(fi, obj) {
+					if lit, ok := unparen(c12LocalInit(fi, obj)).(*ast.FuncLit); ok {
+						body, ftype = lit.Body, lit.Type
+					}
+				}
+			}
+			if body == nil {
+				if fn := calleeOf(info, t); fn != nil {
+					if cf := st.c.P.FuncOfObj(fn); cf != nil && cf.Pkg == fi.Pkg && cf.Decl.Body != nil {
+						body, ftype, cfi = cf.Decl.Body, cf.Decl.Type, cf
+					}
+				}
+			}
+			if body == nil {
+				return true
+			}
+			// flags the callee sets itself (closure over vx, method of Vaxis)
+			flags = append(flags, st.capFlagsSet(cfi, body, depth+1)...)
+			// flags set through a pointer parameter
+			i := 0
+			for _, f := range ftype.Params.List {
+				for _, nm := range f.Names {
+					po := info.Defs[nm]
+					if i < len(t.Args) && po != nil && c12StoresTrueThrough(info, body, po) {
+						if u, ok := unparen(t.Args[i]).(*ast.UnaryExpr); ok && u.Op == token.AND {
+							if p := canonPath(info, u.X); strings.HasPrefix(p, "Vaxis.caps.") {
+								flags = append(flags, strings.TrimPrefix(p, "Vaxis.caps."))
+							}
+						}
+					}
+					i++
+				}
+			}
+		}
+		return true
+	})
+	return flags
+}
+
+// c12StoresTrueThrough: the body assigns the constant true through the pointer parameter p (`*p = true`), and p is
+// not re-pointed before.
+func c12StoresTrueThrough(info *types.Info, body *ast.BlockStmt, p types.Object) bool {
+	stores, repointed := false, false
+	ast.Inspect(body, func(n ast.Node) bool {
+		as, ok := n.(*ast.AssignStmt)
+		if !ok {
+			return true
+		}
+		for i, l := range as.Lhs {
+			if id, ok := unparen(l).(*ast.Ident); ok && info.ObjectOf(id) == p {
+				repointed = true
+			}
+			if star, ok := unparen(l).(*ast.StarExpr); ok && len(as.Lhs) == len(as.Rhs) && as.Tok == token.ASSIGN {
+				if id, ok := unparen(star.X).(*ast.Ident); ok && info.ObjectOf(id) == p {
+					if tv := info.Types[as.Rhs[i]]; tv.Value != nil && tv.Value.String() == "true" {
+						stores = true
+					}
+				}
+			}
+		}
+		return true
+	})
+	return stores && !repointed
+}
+
+// c12LocalInit: the initialiser of a local variable that is defined exactly once (`x := e`, `var x = e`) and never
+// assigned again; nil otherwise.
+func c12LocalInit(fi *FuncInfo, obj types.Object) ast.Expr {
+	info := fi.Pkg.TypesInfo
+	var inits []ast.Expr
+	writes := 0
+	ast.Inspect(fi.Decl.Body, func(n ast.Node) bool {
+		switch t := n.(type) {
+		case *ast.AssignStmt:
+			for i, l := range t.Lhs {
+				if id, ok := l.(*ast.Ident); ok && info.ObjectOf(id) == obj {
+					writes++
+					if len(t.Lhs) == len(t.Rhs) && (t.Tok == token.DEFINE || t.Tok == token.ASSIGN) {
+						inits = append(inits, t.Rhs[i])
+					}
+				}
+			}
+		case *ast.ValueSpec:
+			for i, nm := range t.Names {
+				if info.Defs[nm] == obj {
+					writes++
+					if i < len(t.Values) && len(t.Values) == len(t.Names) {
+						inits = append(inits, t.Values[i])
+					}
+				}
+			}
+		case *ast.IncDecStmt:
+			if id, ok := unparen(t.X).(*ast.Ident); ok && info.ObjectOf(id) == obj {
+				writes++
+			}
+		}
+		return true
+	})
+	if writes == 1 && len(inits) == 1 {
+		return inits[0]
+	}
+	return nil
 }
 
 // postFuncs: functions of package vaxis that send one of their parameters on Vaxis.queue.
